@@ -114,7 +114,8 @@ def worker(args):
         mine = []
         for o in obls:
             ps = attribute(ex, contract, o, sprops)
-            if prop in ps:
+            if prop in ps or _G.get('tier') == 'thorough':
+                # thorough: every obligation of every function the property's contracts rest on
                 mine.append(o)
         # cover check: the precondition must be satisfiable (a contradictory requires proves everything)
         cov = solve.cover_check(ex, ex.cover.get('entry') or [])
@@ -162,6 +163,32 @@ def select_functions(prog, db, prop):
             continue
         out.append(cands[0].name)
     return sorted(set(out)), missing
+
+
+def contract_closure(prog, db, fns):
+    """the functions given plus, transitively, every callee that is used through its contract"""
+    from .exec import Executor
+    ex = Executor(prog, db)
+    seen = set(fns)
+    work = list(fns)
+    while work:
+        f = prog.funcs.get(work.pop())
+        if f is None:
+            continue
+        for b in f.blocks:
+            for ins in b['instrs']:
+                callee = ins.get('callee') if ins.get('op') in ('Call', 'Go', 'Defer') else None
+                if not callee or callee in seen:
+                    continue
+                f2 = prog.funcs.get(callee)
+                if f2 is None:
+                    continue
+                c = ex.contract_of(f2)
+                if c is None or 'inline' in c.flags or 'trusted' in c.flags:
+                    continue
+                seen.add(callee)
+                work.append(callee)
+    return sorted(seen)
 
 
 def _short_in_pkg(prog, f):
@@ -221,6 +248,9 @@ def main(argv=None):
         print('UNDECIDED property=%s reason=no function under contract for this property' % prop)
         return 2
     timeout_ms = 20000 if tier == 'quick' else 60000
+    _G['tier'] = tier
+    if tier == 'thorough':
+        fns = contract_closure(prog, db, fns)
     jobs = [(f, prop, timeout_ms, seed, True) for f in fns]
     ctx = mp.get_context('fork')
     with ctx.Pool(min(a.jobs, len(jobs))) as pool:
@@ -365,7 +395,7 @@ def main(argv=None):
             'baseline_obligations': len(base),
             'vanished_obligations': vanished,
         },
-        'assumptions': TRUSTED_ALWAYS,
+        'assumptions': list(TRUSTED_ALWAYS) + sorted(t for t in trusted if t.startswith('ASSUMED') or t.startswith('assumed axiom') or t.startswith('trusted contract') or t.startswith('T3')),
         'wall_s': round(wall, 2),
         'violations': len(violations) + len(engine_errors) + (1 if (vanished and not violations and not engine_errors) else 0),
     }
